@@ -316,8 +316,17 @@ def bitset(name, members, base=MemberBits, list=False, tuple=False):
     return base._make_subclass(name, members, listcls=None, tuplecls=tuplecls)
 
 
+_REGISTRY = {}
+
+
 def _meta_bitset(name, members, id, basecls, listcls, tuplecls):
-    return basecls._make_subclass(name, members, id, listcls, tuplecls)
+    # like the real library: classes created with an explicit id are kept in a registry and reused
+    if not isinstance(id, int):
+        raise RuntimeError(f'non-integer id: {id!r}')
+    key = (name, members, id, core.W)
+    if key not in _REGISTRY:
+        _REGISTRY[key] = basecls._make_subclass(name, members, id, listcls, tuplecls)
+    return _REGISTRY[key]
 
 
 def install():
